@@ -39,6 +39,12 @@ func (c *ShipConnection) handleShipMessage(timeout bool, message []byte) {
 		}
 	}
 
+	// a message that was read, or a timer that fired, right before this connection got closed
+	// must not move the handshake of the closed connection on anymore
+	if c.getShutdown() {
+		return
+	}
+
 	c.handleState(timeout, message)
 }
 
